@@ -18,6 +18,7 @@ import (
 	"go/token"
 	"go/types"
 	"hash/fnv"
+	"os"
 	"path/filepath"
 	"sort"
 	"strings"
@@ -620,4 +621,19 @@ func Load(dir string, tests bool, patterns ...string) ([]*Loaded, error) {
 	}
 	sort.Slice(out, func(i, j int) bool { return out[i].ID < out[j].ID })
 	return out, nil
+}
+
+// ReadSources fills File.Src from disk for files that have none.
+func (v *Variant) ReadSources() error {
+	for i := range v.Files {
+		if v.Files[i].Src != "" {
+			continue
+		}
+		b, err := os.ReadFile(v.Files[i].Name)
+		if err != nil {
+			return err
+		}
+		v.Files[i].Src = string(b)
+	}
+	return nil
 }
